@@ -333,9 +333,41 @@ def analyse(ctx, replace=None, only=None):
         oz = [e for e in rc.indirect_calls() if RU.indirect_via(rc, e.node) == ("aws_ref_count", "on_zero_fn")]
         okr = len(ops) == 1 and len(rmw) == 1 and len(oz) == 1
         if okr:
-            tainted, et = RU.derives(rc, lambda n: n.get("id") == rmw[0].node["id"] and n["k"] in ("call", "ref"))
-            gs = [RU.cmp_norm(rc, c_, p_) for c_, p_, b_ in RU.guards(rc, oz[0])]
-            okr = any(g_ and g_[1] == "==" and g_[2] is not None and rc.is_const(g_[2]) == 1 and et(g_[0]) for g_ in gs) and len([g_ for g_ in gs if g_]) == 1
+            # NUM: the callback is reached exactly with `the fetch_sub returned 1` - however the test is written
+            # (old == 1, old - 1 == 0, through a local) - and a path that skips it has a result other than 1
+            from sa.num import Num, Poly, Limit, feasible, entails
+            from sa.awslib import AwsHooks
+
+            class H(AwsHooks):
+                def call(self, num, st, e, args):
+                    if (e.get("callee") or "").startswith("aws_atomic_fetch_sub"):
+                        # the count before a release is at least 1: releasing a reference one does not hold is a misuse
+                        # of the API (the function's own AWS_ASSERT), so `old - 1` does not wrap
+                        a = num.fresh(st, "old", None, (1, 2 ** 64 - 1))
+                        st.notes["old"] = a
+                        return Poly.atom(a)
+                    if e.get("callee") is None:
+                        st.notes["called"] = True
+                        return None
+                    return AwsHooks.call(self, num, st, e, args)
+            num = Num(rc, P, H())
+            try:
+                sts = num.states_at({oz[0].node["id"], -1})
+            except Limit as ex:
+                R.broken(str(ex))
+                sts = {}
+            n_in, n_out = 0, 0
+            for st in sts.get(oz[0].node["id"], []):
+                n_in += 1
+                o = Poly.atom(st.notes["old"]) if "old" in st.notes else None
+                okr = okr and o is not None and entails(st, o - 1) and entails(st, Poly.const(1) - o)
+            for st in sts.get(-1, []):
+                if st.notes.get("called"):
+                    continue
+                n_out += 1
+                o = Poly.atom(st.notes["old"]) if "old" in st.notes else None
+                okr = okr and o is not None and not feasible(st, extra=(o - 1, Poly.const(1) - o))
+            okr = okr and n_in >= 1 and n_out >= 1
         R.check(okr, "SHUTDOWN-ORDER", "release:single-atomic-decrement-decides", "aws_ref_count_release()", "one fetch_sub; the destroy callback runs exactly when it returned 1",
                 "aws_ref_count_release uses %s and does not decide `last reference` from the result of a single fetch_sub: two threads releasing the last two references can both skip the destroy callback (the scheduler thread is never stopped, pending tasks never cancelled)" % [e.node["callee"] for e in ops])
     # one pass of the scheduler thread: hand-over, then the cancellation records, then run-all (a task cancelled before
